@@ -961,26 +961,26 @@ def compare_model(case, isteps, msteps):
     return None, False
 
 
-def build_cases(chk):
+def gen_cases(chk):
+    """generator of histories (lazily: the thorough tier enumerates several hundred thousand)"""
     rng = chk.rng
     quick = chk.tier == "quick"
-    cases = []
     for fa, fb, flags, ops in CORPUS:
-        cases.append({"fa": fa, "fb": fb, "ba": 10, "bb": 20, "flags": flags, "ops": ops, "part": "corpus"})
+        yield {"fa": fa, "fb": fb, "ba": 10, "bb": 20, "flags": flags, "ops": ops, "part": "corpus"}
     # exhaustive: every sequence over the small alphabet up to the length bound, 2 documents x 3-4 pages
     alpha = small_alphabet(chk.tier)
     maxlen = 3 if quick else 4
-    pairs = [("flat3", "nested0")] if quick else [("flat3", "nested0"), ("nested1", "flat4r")]
-    for fa, fb in pairs:
-        for L in range(1, maxlen + 1):
+    pairs = [("flat3", "nested0", maxlen)] if quick else [("flat3", "nested0", maxlen), ("nested1", "flat4r", maxlen - 1)]
+    for fa, fb, ml in pairs:
+        for L in range(1, ml + 1):
             for seq in itertools.product(alpha, repeat=L):
-                cases.append({"fa": fa, "fb": fb, "ba": 10, "bb": 20, "flags": "0" if L == maxlen else "1", "ops": list(seq), "part": "exhaustive"})
+                yield {"fa": fa, "fb": fb, "ba": 10, "bb": 20, "flags": "0" if L == ml else "1", "ops": list(seq), "part": "exhaustive"}
     # one more level, sampled
     n_s = 3000 if quick else 60000
     for _ in range(n_s):
         fa, fb = rng.choice([("flat3", "nested0"), ("flat4r", "flat3"), ("nested1", "flat3"), ("shared", "flat3")])
-        cases.append({"fa": fa, "fb": fb, "ba": 10, "bb": 20, "flags": rng.choice("012") + "w" * (rng.random() < 0.2) + "v" * (rng.random() < 0.2),
-                      "ops": [rng.choice(alpha) for _ in range(maxlen + 1 + rng.randrange(2))], "part": "exhaustive-sampled"})
+        yield {"fa": fa, "fb": fb, "ba": 10, "bb": 20, "flags": rng.choice("012") + "w" * (rng.random() < 0.2) + "v" * (rng.random() < 0.2),
+               "ops": [rng.choice(alpha) for _ in range(maxlen + 1 + rng.randrange(2))], "part": "exhaustive-sampled"}
     # random long histories over all families
     n_r = 1500 if quick else 20000
     fams = list(FAMILIES)
@@ -989,28 +989,27 @@ def build_cases(chk):
         hostile = rng.random() < 0.25
         pool = fams if hostile else ok_fams
         fa, fb = rng.choice(pool), rng.choice(pool)
-        cases.append({"fa": fa, "fb": fb, "ba": 10, "bb": 40, "flags": rng.choice("0012") + ("w" if rng.random() < 0.3 else "") + ("v" if rng.random() < 0.3 else ""),
-                      "ops": gen_ops(rng, rng.choice([8, 20, 60]) if not quick else rng.choice([6, 15, 40]), hostile=hostile),
-                      "part": "random-hostile" if hostile else "random"})
-    return cases
+        yield {"fa": fa, "fb": fb, "ba": 10, "bb": 40, "flags": rng.choice("0012") + ("w" if rng.random() < 0.3 else "") + ("v" if rng.random() < 0.3 else ""),
+               "ops": gen_ops(rng, rng.choice([8, 20, 60]) if not quick else rng.choice([6, 15, 40]), hostile=hostile),
+               "part": "random-hostile" if hostile else "random"}
 
 
-def run(chk):
+def build_cases(chk):
+    return list(gen_cases(chk))
+
+
+def run_batch(chk, cases, agg):
+    """one batch of histories: implementation, model, specification, oracles; counters are accumulated in agg"""
     drv = os.path.join(common.DRV, "drv")
     runner = os.path.join(common.EXTRACT, "model_runner")
-    chk.cov["rule"] = ("histories of page/object-copy API calls on two documents: every sequence over a %d-operation alphabet up to the length bound "
-                       "(operands resolved against the current state: k-th leaf, recent object, other document), one more level sampled, random long histories "
-                       "over %d document families (flat, nested with inherited attributes, shared kids, direct kids, sloppy, empty, misplaced root, non-dictionary kids, loops); "
-                       "non-trivial = history with at least one successful change of a page list or a foreign copy, distinct by (documents, concrete operations)"
-                       % (len(small_alphabet(chk.tier)), len(FAMILIES)))
-    cases = build_cases(chk)
+    stats = agg["stats"]
+    all_cases = cases
     impl = run_cases(drv, cases)
     isteps = [parse_steps(l) for l in impl]
     # a history on which the implementation dies (stack overflow, memory cap, timeout): find the shortest dying prefix; it is
     # a violation unless the history had already left the domain of the specification (direct damage to the tree without
     # updateAllPagesCache: pushInheritedAttributesToPageInternal recurses without loop detection on a stale cache)
     aborted = [i for i, l in enumerate(impl) if l.startswith("?crashed")]
-    n_aborted_outside = 0
     for i in aborted:
         c = cases[i]
         ops = c["ops"]
@@ -1047,12 +1046,12 @@ def run(chk):
             chk.violation({"kind": "property-fails-on-implementation", "part": "abort", "case": describe(c), "why": "the implementation dies (stack overflow / memory cap / timeout) instead of returning or raising",
                            "shortest_dying_prefix": ops[:n], "concrete_prefix": concrete_ops(psteps), "output": impl[i][:200]}, signature="C13:abort")
         else:
-            n_aborted_outside += 1
+            agg["aborted_outside"] += 1
     broken = [i for i, l in enumerate(impl) if (l.startswith("?") and not l.startswith("?crashed")) or l.startswith("!")]
     if broken:
         i = broken[0]
         chk.violation({"kind": "broken-tie-infrastructure", "what": "driver failed on a case", "case": describe(cases[i]), "output": impl[i][:500]}, no_input=True)
-        return
+        return False
     if aborted:
         keep = [i for i in range(len(cases)) if i not in set(aborted)]
         cases = [cases[i] for i in keep]
@@ -1063,7 +1062,6 @@ def run(chk):
     msteps = [parse_steps(l) for l in model]
 
     # ---- specification
-    stats = {"spec_steps": 0, "spec_stopped": 0, "spec_viol": 0, "spec_complete": 0, "known_sig": {}, "unmodelled": 0}
     plans = {}
     slines, sidx = [], []
     for i, c in enumerate(cases):
@@ -1102,8 +1100,8 @@ def run(chk):
 
     # ---- model vs implementation
     tie = []
-    nontriv = {}
-    kinds_count = {}
+    nontriv = agg["nontriv"]
+    kinds_count = agg["kinds"]
     for i, c in enumerate(cases):
         d, unm = compare_model(c, isteps[i], msteps[i])
         if unm:
@@ -1113,35 +1111,72 @@ def run(chk):
         changed = any(st.get("r", "").startswith("ok") and st.get("o", "").split(",")[0] in ("ap", "hp", "an", "aa", "ha", "rm", "hr", "cf", "sw", "rp")
                       for st in isteps[i][1:-1])
         if changed:
-            nontriv.setdefault(c["part"], set()).add((c["fa"], c["fb"], tuple(conc[i])))
+            nontriv.setdefault(c["part"], set()).add(hash((c["fa"], c["fb"], tuple(conc[i]))))
         for st in isteps[i][1:-1]:
             key = st.get("o", "?").split(",")[0] + ":" + st.get("r", "?").split(":")[0 if st.get("r", "").startswith("ok") else 1]
             kinds_count[key] = kinds_count.get(key, 0) + 1
-    if tie:
-        spec_bad = stats["spec_viol"] - sum(stats["known_sig"].values())
+    if tie and agg["tie"] is None:
         i, d = tie[0]
-        rep = {"kind": "correspondence-broken", "correspondence": "corr:C13:pages-copier-model", "differing_cases": len(tie),
-               "first_case": describe(cases[i], isteps[i]), "first_differing_step": d,
-               "implementation": {k: isteps[i][d].get(k) for k in CMP_KEYS + ("o", "t")}, "model": {k: msteps[i][d].get(k) for k in CMP_KEYS},
-               "replay": replay_line(cases[i], isteps[i]),
-               "note": "the model of QPDF_pages.cc / Foreign::Copier and the implementation print different results or object states"}
+        agg["tie"] = {"kind": "correspondence-broken", "correspondence": "corr:C13:pages-copier-model",
+                      "first_case": describe(cases[i], isteps[i]), "first_differing_step": d,
+                      "implementation": {k: isteps[i][d].get(k) for k in CMP_KEYS + ("o", "t")}, "model": {k: msteps[i][d].get(k) for k in CMP_KEYS},
+                      "replay": replay_line(cases[i], isteps[i]),
+                      "note": "the model of QPDF_pages.cc / Foreign::Copier and the implementation print different results or object states"}
+    agg["ties"] += len(tie)
+    for c in all_cases:
+        agg["parts"][c["part"]] = agg["parts"].get(c["part"], 0) + 1
+        if len(agg["samples"].setdefault(c["part"], [])) < 2:
+            agg["samples"][c["part"]].append(describe(c))
+    return True
+
+
+def case_batches(chk, size=25000):
+    g = gen_cases(chk)
+    while True:
+        batch = list(itertools.islice(g, size))
+        if not batch:
+            return
+        yield batch
+
+
+def run(chk):
+    chk.cov["rule"] = ("histories of page/object-copy API calls on two documents: every sequence over a %d-operation alphabet up to the length bound "
+                       "(operands resolved against the current state: k-th leaf, recent object, other document), one more level sampled, random long histories "
+                       "over %d document families (flat, nested with inherited attributes, shared kids, direct kids, sloppy, empty, misplaced root, non-dictionary kids, loops); "
+                       "non-trivial = history with at least one successful change of a page list or a foreign copy, distinct by (documents, concrete operations)"
+                       % (len(small_alphabet(chk.tier)), len(FAMILIES)))
+    agg = {"stats": {"spec_steps": 0, "spec_stopped": 0, "spec_viol": 0, "spec_complete": 0, "known_sig": {}, "unmodelled": 0},
+           "nontriv": {}, "kinds": {}, "parts": {}, "samples": {}, "tie": None, "ties": 0, "aborted_outside": 0}
+    for batch in case_batches(chk):
+        if not run_batch(chk, batch, agg):
+            return
+        if len(chk.violations) > 2000:
+            break                     # enough failing inputs have been collected
+    stats = agg["stats"]
+    total = sum(agg["parts"].values())
+    if agg["tie"] is not None:
+        spec_bad = stats["spec_viol"] - sum(stats["known_sig"].values())
         if spec_bad == 0:
-            chk.violation(rep, no_input=True)
-    parts = {}
-    for c in cases:
-        parts[c["part"]] = parts.get(c["part"], 0) + 1
-    for p, n in parts.items():
-        chk.count(p, n, nontriv.get(p, ()), samples=[describe(c) for c in cases if c["part"] == p][:2])
-    chk.cov["parts"]["steps"] = {"operation:result": dict(sorted(kinds_count.items())),
+            chk.violation(dict(agg["tie"], differing_cases=agg["ties"]), no_input=True)
+    for p, n in agg["parts"].items():
+        chk.count(p, n, agg["nontriv"].get(p, ()), samples=agg["samples"].get(p, []))
+    chk.cov["parts"]["steps"] = {"operation:result": dict(sorted(agg["kinds"].items())),
                                  "spec_steps_checked": stats["spec_steps"], "histories_fully_inside_spec": stats["spec_complete"],
                                  "histories_leaving_spec_domain": stats["spec_stopped"], "unmodelled_cases": stats["unmodelled"],
-                                 "known_finding_hits": stats["known_sig"], "model_differences": len(tie),
-                                 "implementation_aborted_after_direct_tree_damage": n_aborted_outside,
+                                 "known_finding_hits": stats["known_sig"], "model_differences": agg["ties"],
+                                 "implementation_aborted_after_direct_tree_damage": agg["aborted_outside"],
                                  "stream_source_disturbed": stats.get("stream_source_disturbed", 0),
                                  "copies_checked_by_isomorphism_oracle": stats.get("copies_checked", 0)}
-    if stats["unmodelled"] * 5 > len(cases):
+    if stats["unmodelled"] * 5 > max(1, total):
         chk.violation({"kind": "correspondence-broken", "correspondence": "corr:C13:pages-copier-model",
-                       "note": "more than 20%% of the histories reach a situation the model does not cover (%d of %d)" % (stats["unmodelled"], len(cases))}, no_input=True)
+                       "note": "more than 20%% of the histories reach a situation the model does not cover (%d of %d)" % (stats["unmodelled"], total)}, no_input=True)
+    if chk.tier != "quick":
+        # independent re-check of the compiled proofs and their axiom list
+        rc, out = common.sh("timeout 1500 coqchk -o -silent -Q . QV QV.Props.Properties_C13", cwd=common.COQ)
+        txt = out.decode("utf-8", "replace")
+        chk.cov["parts"]["coqchk"] = {"exit": rc, "output_tail": txt[-600:]}
+        if rc != 0:
+            chk.violation({"kind": "proof-obligation-no-longer-checks", "property": "C13", "theorem": "coqchk QV.Props.Properties_C13", "coqc_output": txt[-3000:]}, no_input=True)
 
 
 def replay(chk, rep):
